@@ -339,6 +339,40 @@ def ob_solve(et, physics):
     return Verdict(DISCHARGED, backend="native float run of the real Simulations pipeline (run-time contract, tol 1e-9)", detail=str(r))
 
 
+def ob_solve_large():
+    """Patch test on a mesh with more than 2^31 matrix slots (Ndof > 46340): hand-built structured, affinely distorted TRI3 grid,
+    plane-stress elasticity, native floats.  (Index arithmetic that is only correct for small systems shows up here.)"""
+    from EasyFEA import Models, Simulations
+    N = 154
+    xs = np.linspace(0.0, 1.0, N)
+    X, Y = np.meshgrid(xs, xs, indexing="ij")
+    co = np.zeros((N * N, 3))
+    co[:, 0] = (1.3 * X + 0.2 * Y).ravel()
+    co[:, 1] = (-0.1 * X + 0.9 * Y).ravel()
+    idx = np.arange(N * N).reshape(N, N)
+    a, b, c_, d = idx[:-1, :-1].ravel(), idx[1:, :-1].ravel(), idx[1:, 1:].ravel(), idx[:-1, 1:].ravel()
+    connect = np.concatenate([np.stack([a, b, c_], 1), np.stack([a, c_, d], 1)])
+    mesh = patches.real_mesh("TRI3", co.tolist(), connect.tolist())
+    simu = Simulations.Elastic(mesh, Models.Elastic.Isotropic(2, E=3.0, v=0.25, planeStress=True, thickness=1.0))
+    G = np.array([[0.3, -0.7], [0.5, 0.2]])
+    exact = co[:, :2] @ G.T + np.array([0.1, -0.2])
+    bnd = np.unique(np.concatenate([idx[0, :], idx[-1, :], idx[:, 0], idx[:, -1]]))
+    simu.add_dirichlet(bnd, [exact[bnd, 0], exact[bnd, 1]], ["x", "y"])
+    Ndof = mesh.Nn * 2
+    K = simu.Get_K_C_M_F()[0]
+    r = K @ exact.ravel()
+    interior = np.setdiff1d(np.arange(mesh.Nn), bnd)
+    rows = np.concatenate([interior * 2, interior * 2 + 1])
+    res = float(np.abs(r[rows]).max() / np.abs(K.diagonal()).max())
+    u = np.asarray(simu.Solve()).reshape(-1, 2)
+    with np.errstate(all="ignore"):
+        err = float(np.nanmax(np.abs(u - exact)) / np.abs(exact).max()) if np.isfinite(u).all() else float("inf")
+    rec = dict(Ndof=int(Ndof), residual_interior=res, rel_err=err, empty_rows=int((np.diff(K.indptr) == 0).sum()))
+    if res > 1e-9 or err > 1e-8:
+        raise Refuted(f"patch test on a {Ndof}-dof TRI3 mesh fails: {rec}", cex=dict(Ndof=int(Ndof)), signature="solve:large", replay=dict(confirmed=True, **rec))
+    return Verdict(DISCHARGED, backend="native float run (run-time contract)", detail=str(rec))
+
+
 ELASTIC_QUICK = ["TRI3", "TRI6", "QUAD4", "QUAD8", "TETRA4", "HEXA8", "PRISM6"]
 ELASTIC_THOROUGH = ["TRI10", "QUAD9", "TETRA10", "PRISM15"]
 
@@ -377,6 +411,9 @@ def build(tier, seed):
             obs.append(Ob(f"C01.solve.{et}.elastic", ob_solve, (et, "elastic"), "X", ("EasyFEA/Simulations/_elastic.py::Elastic", "EasyFEA/Simulations/_simu.py::_Simu.Solve"),
                           bound="one star patch per type, one random linear field, floats",
                           clause="Solve() returns the linear field; Strain/Stress/Wdef are the constants (1e-9)", timeout=300))
+    obs.append(Ob("C01.solve.large.TRI3.elastic", ob_solve_large, (), "X", ("EasyFEA/Simulations/_simu.py::_Simu.Assembly", "EasyFEA/Simulations/_simu.py::_Simu.Solve"),
+                  bound="one structured 154x154-node TRI3 mesh (47432 dofs > 46340), one linear field, floats",
+                  clause="interior residual of the linear field vanishes and Solve() reproduces it on a system with more than 2^31 matrix positions", timeout=600))
     obs.append(Ob("canary.linalg.det", ob_linalg, (3, True), "P", expect=REFUTED, timeout=120))
     functions = {q: extract.get(GP, f"_GroupElem.{q}").describe() for q in ("Get_F_e_pg", "Get_invF_e_pg", "Get_dN_e_pg", "Get_B_e_pg", "Get_jacobian_e_pg")}
     for q in ("Det", "Inv", "Trace"):
